@@ -232,14 +232,23 @@ static int c_deflate(const struct cparams *p, uint8_t *in, size_t len, uint8_t *
 		s->end_of_stream = 1;
 		r = isal_deflate(s);
 	} else {
-		size_t ip = 0, op = 0;
+		size_t ip = 0, op = 0, cur_len = 0;
+		uint8_t *cur_in = NULL;
 		int guard = 0;
 		r = COMP_OK;
 		for (;;) {
 			size_t ci = len - ip < (size_t)p->cin ? len - ip : (size_t)p->cin;
 			size_t co = cap - op < (size_t)p->cout ? cap - op : (size_t)p->cout;
 			if (s->avail_in == 0) {
-				s->next_in = in + ip;
+				/* every chunk is handed over in its own buffer; once it is consumed the caller reuses that memory (scribbled here),
+				 * so a codec that reads consumed input again produces wrong output instead of getting away with it */
+				if (cur_in)
+					memset(cur_in, 0xA5, cur_len);
+				cur_in = ci ? g_alloc(ci, G_END) : NULL;
+				cur_len = ci;
+				if (ci)
+					memcpy(cur_in, in + ip, ci);
+				s->next_in = cur_in ? cur_in : in + ip;
 				s->avail_in = ci;
 				ip += ci;
 			}
